@@ -32,12 +32,11 @@ Theorem C21_recover_and_isotropy : forall K G, kg_of_stiff K G = [K; G] /\ Foral
 Proof. intros K G. exact (conj (kg_of_stiff_ok K G) (iso_defect_ok K G)). Qed.
 Print Assumptions C21_recover_and_isotropy.
 
-(* isotropic tensors of the reduced hypotheses *)
+(* isotropic tensors of the reduced hypotheses (axisymmetrical generalised plane stress: Properties_C21_agps*.v) *)
 Theorem C21_isotropic_reductions : forall E nu, admissible E nu ->
   sub_block 4 (iso_pstrain E nu) (iso3d E nu) id_map /\
-  condensed 4 (iso_pstress E nu) (iso3d E nu) id_map 2 keep2 /\
-  condensed 3 (iso_agps E nu) (iso3d E nu) id_map 2 keep2.
-Proof. intros E nu H. exact (conj (iso_pstrain_ok E nu H) (conj (iso_pstress_ok E nu H) (iso_agps_ok E nu H))). Qed.
+  condensed 4 (iso_pstress E nu) (iso3d E nu) id_map 2 keep2.
+Proof. intros E nu H. exact (conj (iso_pstrain_ok E nu H) (iso_pstress_ok E nu H)). Qed.
 Print Assumptions C21_isotropic_reductions.
 
 (* orthotropic 3D tensor = inverse of the compliance matrix *)
@@ -61,17 +60,15 @@ Proof.
 Qed.
 Print Assumptions C21_orthotropic_sub_blocks.
 
-(* plane stress: condensation C_ij - C_i3 C_3j / C_33 of the 3D tensor *)
+(* plane stress: condensation C_ij - C_i3 C_3j / C_33 of the 3D tensor (axisymmetrical generalised plane stress: Properties_C21_agps*.v) *)
 Theorem C21_orthotropic_plane_stress : forall E1 E2 E3 n12 n23 n13 G12 G23 G13, E1 <> 0 -> E2 <> 0 -> E3 <> 0 -> detS E1 E2 E3 n12 n23 n13 <> 0 ->
   E1 - E2 * n12 * n12 <> 0 ->
   let C3 := ortho3d E1 E2 E3 n12 n23 n13 G12 G23 G13 in
   condensed 4 (ortho_pstress E1 E2 E3 n12 n23 n13 G12 G23 G13) C3 id_map 2 keep2 /\
-  condensed 4 (ortho_pstress_plate E1 E2 E3 n12 n23 n13 G12 G23 G13) C3 id_map 2 keep2 /\
-  condensed 3 (ortho_agps E1 E2 E3 n12 n23 n13 G12 G23 G13) C3 id_map 2 keep2.
+  condensed 4 (ortho_pstress_plate E1 E2 E3 n12 n23 n13 G12 G23 G13) C3 id_map 2 keep2.
 Proof.
   intros E1 E2 E3 n12 n23 n13 G12 G23 G13 H1 H2 H3 Hd H22.
-  exact (conj (ortho_pstress_ok _ _ _ _ _ _ G12 G23 G13 H1 H2 H3 Hd H22) (conj (ortho_pstress_plate_ok _ _ _ _ _ _ G12 G23 G13 H1 H2 H3 Hd H22)
-        (ortho_agps_ok _ _ _ _ _ _ G12 G23 G13 H1 H2 H3 Hd H22))).
+  exact (conj (ortho_pstress_ok _ _ _ _ _ _ G12 G23 G13 H1 H2 H3 Hd H22) (ortho_pstress_plate_ok _ _ _ _ _ _ G12 G23 G13 H1 H2 H3 Hd H22)).
 Qed.
 Print Assumptions C21_orthotropic_plane_stress.
 
@@ -79,11 +76,12 @@ Print Assumptions C21_orthotropic_plane_stress.
    from the header on every run, one definition traced per row): for non-degenerate constants given in the 3D material frame the
    tensor is the 3D tensor (inverse of the documented compliance, C21_orthotropic_3d) seen through the documented axis permutation
    of the convention (PIPE: axes 2 and 3 exchanged in plane stress / plane strain / generalised plane strain), restricted to the
-   components of the hypothesis (UNALTERED, and ALTERED outside plane stress) or condensed on the out-of-plane normal stress
-   (ALTERED plane stress hypotheses). *)
-Theorem C21_orthotropic_all_combinations : Forall (combo_ok ortho3d) ortho_table.
-Proof. exact ortho_table_ok. Qed.
-Print Assumptions C21_orthotropic_all_combinations.
+   components of the hypothesis (UNALTERED, and ALTERED outside plane stress) or condensed on the component whose stress is prescribed
+   (ALTERED plane stress hypotheses).  Here: every row but the ALTERED axisymmetrical generalised plane stress ones, which are the subject
+   of Properties_C21_agps.v (with the statement for the whole table) or Properties_C21_agps_refuted.v. *)
+Theorem C21_orthotropic_all_combinations_but_agps_altered : Forall (combo_ok ortho3d) (filter not_agps_altered ortho_table).
+Proof. exact ortho_table_rest_ok. Qed.
+Print Assumptions C21_orthotropic_all_combinations_but_agps_altered.
 
 (* every documented combination (7 hypotheses x DEFAULT, PIPE; PLATE in 3D, plane stress, plane strain, generalised plane strain;
    UNALTERED and ALTERED) is provided by the header, i.e. has a row in the table *)
